@@ -24,6 +24,9 @@ import (
 var rec *evidence.Recorder
 
 var keys = []string{"k1", "k2", "k3", "k4", "k5", "k6"}
+
+// obsKeys: everything a case can write (the pool of the random operations plus the growth keys of the scenarios).
+var obsKeys = []string{"k1", "k2", "k3", "k4", "k5", "k6", "g0", "g1", "g2", "g3", "g4"}
 var dbs = []int{0, 1}
 
 var policies = []string{"noeviction", "allkeys-lfu", "allkeys-lru", "allkeys-random", "volatile-lfu", "volatile-lru", "volatile-random"}
@@ -105,6 +108,14 @@ func genOps(t *rapid.T) []op {
 				ops = append(ops, op{DB: db, Cmd: []string{"GET", k2}})
 			}
 		}
+		// growth by keys that no volatile policy may evict: with the limit at the usage reached here (see the limit
+		// placement), every candidate has to go before the writes are refused or admitted — and only candidates
+		mark := len(ops) - 1
+		for i, g := 0, rapid.IntRange(2, 5).Draw(t, "sgrow"); i < g; i++ {
+			ops = append(ops, op{DB: db, Cmd: []string{"SET", fmt.Sprintf("g%d", i), vals[len(vals)-1]}})
+		}
+		ops = append(ops, op{DB: db, Cmd: []string{"\x00limit-at", strconv.Itoa(mark)}})
+		return ops
 	}
 	for i := 0; i < n; i++ {
 		db := rapid.SampledFrom([]int{0, 0, 0, 1}).Draw(t, "db")
@@ -152,7 +163,7 @@ func present(s *sut.Server) map[keyID]bool {
 	out := map[keyID]bool{}
 	for _, db := range dbs {
 		_ = s.Select(db)
-		for _, k := range keys {
+		for _, k := range obsKeys {
 			// PTTL asks the keyspace whether the key exists and for its deadline without reading the value:
 			// unlike TYPE or GET it is not an access, so observing does not touch the eviction bookkeeping
 			// (an access would, for instance, repair a stale cache entry before the pressure reaches it).
@@ -169,11 +180,21 @@ func present(s *sut.Server) map[keyID]bool {
 func runCase(t *rapid.T, replay *caseData) {
 	var cd caseData
 	twoKeyLast := false
+	forcedLimitAt := -1
 	if replay != nil {
 		cd = *replay
 	} else {
 		cd.Policy = rapid.SampledFrom(policies).Draw(t, "policy")
 		cd.Ops = genOps(t)
+		limitAt := -1
+		if n := len(cd.Ops); n > 0 && cd.Ops[n-1].Cmd[0] == "\x00limit-at" {
+			limitAt, _ = strconv.Atoi(cd.Ops[n-1].Cmd[1])
+			cd.Ops = cd.Ops[:n-1]
+			if rapid.IntRange(0, 2).Draw(t, "vpolicy") > 0 {
+				cd.Policy = rapid.SampledFrom([]string{"volatile-lfu", "volatile-lru", "volatile-random"}).Draw(t, "vpol")
+			}
+		}
+		forcedLimitAt = limitAt
 		if n := len(cd.Ops); n > 0 && cd.Ops[n-1].Cmd[0] == "\x00two-key-last" {
 			cd.Ops = cd.Ops[:n-1]
 			twoKeyLast = true
@@ -211,6 +232,9 @@ func runCase(t *rapid.T, replay *caseData) {
 		how := rapid.SampledFrom([]string{"below", "at", "above", "beyond", "at", "below"}).Draw(t, "limit_how")
 		if twoKeyLast && len(cd.Ops) >= 2 && rapid.IntRange(0, 3).Draw(t, "mlimit") > 0 {
 			idx, how = len(cd.Ops)-2, "above"
+		}
+		if forcedLimitAt >= 0 && forcedLimitAt < len(cd.Ops) && rapid.IntRange(0, 2).Draw(t, "slimit") > 0 {
+			idx, how = forcedLimitAt, "at"
 		}
 		base := usage[idx]
 		if base <= 0 {
@@ -260,7 +284,7 @@ func runCase(t *rapid.T, replay *caseData) {
 		hasDeadline := map[keyID]bool{}
 		for _, db := range dbs {
 			_ = s.Select(db)
-			for _, k := range keys {
+			for _, k := range obsKeys {
 				id := keyID{db, k}
 				if !presentBefore[id] {
 					continue
@@ -441,7 +465,7 @@ func runCase(t *rapid.T, replay *caseData) {
 		}
 		// survivors read exactly as on the reference twin (keys that the reads of this very comparison
 		// get evicted are judged in the next step)
-		ds, dr := s.TakeDigest(dbs, keys), ref.TakeDigest(dbs, keys)
+		ds, dr := s.TakeDigest(dbs, obsKeys), ref.TakeDigest(dbs, obsKeys)
 		waitIdle()
 		still := present(s)
 		for k := range dr {
